@@ -34,8 +34,9 @@ RULE = (
     "(4 for the EdgeLock SRK table) with each used index, DCK, 16-byte uuid (zero = wildcard or random), cc_socu/cc_vu/cc_beacon, input "
     "key encodings, rotk file or signature provider, explicit or derived protocol version, DAC fields with a 32-byte challenge, "
     "authentication beacon, DAR built by create() or load_from_config()); ECC scalars are Hypothesis-drawn (a fixed share with a "
-    "leading-zero coordinate), RSA keys come from the committed pool. Non-trivial = at least 2 RoT keys or a non-zero uuid or a non-zero "
-    "beacon; distinct by case digest"
+    "leading-zero coordinate), RSA keys come from the committed pool. Part elev2: (container-version-2 family+revision, DCK type, signing key "
+    "type, cc_socu, uuid absent/random/with leading zero bytes, fuse version, key file or signature provider). Non-trivial = at least 2 RoT "
+    "keys or a non-zero uuid or a non-zero beacon (elev2: non-zero cc_socu or uuid); distinct by case digest"
 )
 ASSUMPTIONS = [
     "layouts are the documented field orders (DC RSA: version, socc, uuid, 128-byte RoT meta, DCK, cc_socu, cc_vu, beacon, RoTK, signature; "
@@ -51,7 +52,14 @@ ASSUMPTIONS = [
     "the device YAML files by an own walk (defaults < device (alias resolved) < revision) and compared with SPSDK's database at start",
     "ECDSA nonces and PSS salts inside SPSDK are not seedable: verdicts are validity, never bytes; failing artifacts are stored in the replay",
     "the EdgeLock container-version-2 credential is an AHAB certificate: only its fixed part, its single SRK record/data pair and the "
-    "signature container are decoded (PQC second key pair is not exercised: no PQC backend in this environment)",
+    "signature container are decoded (PQC second key pair is not exercised: no PQC backend in this environment); its signature is checked "
+    "under the configured signing key (the certificate does not name its signer); the container-version-2 response (an AHAB signed "
+    "message) is not decoded here (AHAB containers are C06's subject) - for those parts only credential and challenge are checked",
+    "classic credentials are generated for non-EdgeLock parts and for EdgeLock revisions with ele_cnt_version 1; DebugAuthenticateResponse."
+    "create() has no revision parameter, so for an older revision of a family whose latest revision is container version 2 the response is "
+    "built through load_from_config() only",
+    "the DAC is validated against the credential only when the RoT hash length of the challenge equals the length of the reference hash "
+    "(it is unknown what a 'SHA-256 always' part sends for P-384/P-521 keys)",
 ]
 FLOORS = {"kind:rsa": 0.08, "kind:ecc": 0.15, "kind:ele": 0.08, "kind:elev2": 0.05, "multi_rot": 0.25, "beacon_nonzero": 0.2,
           "uuid_nonzero": 0.2, "dar_checked": 0.4, "leading_zero": 0.03, "kt:secp521r1": 0.04, "kt:rsa4096": 0.005, "rot_id:3": 0.02}
@@ -191,12 +199,24 @@ _BEACON = st.one_of(st.just(0), st.integers(1, 0xFFFF), st.integers(0x10000, 0xF
 _UUID = st.one_of(st.just(bytes(16)), st.binary(min_size=16, max_size=16), st.binary(min_size=16, max_size=16))
 
 
+def _class_of(info: dict) -> str:
+    if info["ele"]:
+        return "ele_v%d%s" % (info["cnt"], "_swapped" if info["swapped"] else "")
+    return "sha256_always" if info["sha256"] else "rot_not_in_dac" if info["nodac"] else "rot_could_be_invalid" if info["inv"] else "plain"
+
+
+_CLASS_WEIGHT = {"plain": 4, "sha256_always": 2, "rot_could_be_invalid": 2, "rot_not_in_dac": 1, "ele_v1": 4, "ele_v1_swapped": 2}
+
+
 def _dc_strategy(tier: str):
-    choices = _family_choices(tier)
+    groups: dict = {}
+    for fam_rev in _family_choices(tier):
+        groups.setdefault(_class_of(_info(*fam_rev)), []).append(fam_rev)
+    classes = [c for c in sorted(groups) for _ in range(_CLASS_WEIGHT.get(c, 1))]
 
     @st.composite
     def build(draw):
-        fam, rev = draw(st.sampled_from(choices))
+        fam, rev = draw(st.sampled_from(groups[draw(st.sampled_from(classes))]))
         info = _info(fam, rev)
         kt = draw(st.sampled_from(_KT_WEIGHTED))
         n = 4 if info["ele"] else draw(st.sampled_from([1, 1, 2, 3, 4, 4]))
@@ -273,9 +293,7 @@ def run_dc(case, o: Oracle) -> None:
 
     # ---- classification
     o.label("kind:" + kind, "kt:" + kt, "n:%d" % n, "rot_id:%d" % rot_id, "signer:" + case["signer"], "proto:%d.%d" % (major, minor))
-    cls_label = "ele_v%d%s" % (info["cnt"], "_swapped" if info["swapped"] else "") if info["ele"] else (
-        "sha256_always" if info["sha256"] else "rot_not_in_dac" if info["nodac"] else "rot_could_be_invalid" if info["inv"] else "plain")
-    o.label("class:" + cls_label)
+    o.label("class:" + _class_of(info))
     if n >= 2:
         o.label("multi_rot")
     if any(uuid):
@@ -687,6 +705,6 @@ def calibrate(ctx) -> None:
 def parts(ctx):
     _STATE["work"] = ctx.work
     return [
-        HypPart("dc", lambda: _dc_strategy(ctx.tier), run_dc, {"quick": 800, "thorough": 40000}),
-        HypPart("elev2", lambda: _elev2_strategy(ctx.tier), run_elev2, {"quick": 200, "thorough": 8000}),
+        HypPart("dc", lambda: _dc_strategy(ctx.tier), run_dc, {"quick": 640, "thorough": 40000}),
+        HypPart("elev2", lambda: _elev2_strategy(ctx.tier), run_elev2, {"quick": 160, "thorough": 8000}),
     ]
